@@ -5,7 +5,7 @@ P=$1; ID=$2; TIER=${3:-quick}
 cd /repo || exit 9
 if ! git diff --quiet; then echo "REPO DIRTY - abort"; exit 9; fi
 if ! git apply --3way "$P" 2>/tmp/apply.err; then
-  if ! git apply "$P" 2>>/tmp/apply.err; then echo "PATCH DOES NOT APPLY"; cat /tmp/apply.err; git checkout -- . ; git reset -q; exit 8; fi
+  if ! git apply "$P" 2>>/tmp/apply.err; then echo "PATCH DOES NOT APPLY"; cat /tmp/apply.err; git reset -q --hard HEAD; exit 8; fi
 fi
 git reset -q
 cd /verif && ./check "$ID" --tier "$TIER" --no-evidence > /tmp/mut_$ID.out 2>&1
